@@ -79,6 +79,13 @@ def gen_texts(rng, n_records, n_noise):
             else:
                 t.insert(i, rng.choice(alphabet))
             texts.append("".join(t))
+        elif k < 0.47:  # a valid text with one digit written as a non-ASCII decimal digit (fullwidth, Arabic-Indic, Devanagari): not a PEP 440 version
+            t = list(spell(rng, *rng.choice(recs)))
+            pos = [i for i, c in enumerate(t) if c in "0123456789"]
+            if pos:
+                i = rng.choice(pos)
+                t[i] = chr(rng.choice([0xFF10, 0x0660, 0x0966]) + int(t[i]))
+            texts.append("".join(t))
         elif k < 0.6:   # bumpver style
             texts.append("v%dq%d.%d%s" % (rng.randrange(2000, 2030), rng.randrange(1, 5), rng.randrange(1, 99999), rng.choice(["", "-beta", "-rc1", ".dev"])))
         else:
@@ -141,6 +148,18 @@ def run(ctx):
     events = []
     for part in drive.pmap(_eval, jobs, hooks=False):
         events += part
+    # texts with a non-ASCII decimal digit are not PEP 440 versions (class and "below every PEP 440 version" are checked); how two such LEGACY texts compare
+    # with each other is not predicted (the legacy key's treatment of Unicode digits is outside the statement): those events are dropped and counted
+    odd = set(i + 1 for i, t in enumerate(texts) if any(ord(c) > 127 and c.isdigit() for c in t))
+    pep_of = {e["a"]: e["pep"] for e in events if e["ev"] == "text"}
+    def unpredicted(e):
+        ids = [e[k] for k in ("a", "b", "c") if k in e]
+        legacy = [i for i in ids if not pep_of.get(i, True)]
+        return e["ev"] in ("cmp", "triple") and len(legacy) >= 2 and any(i in odd for i in legacy) and len(set(ids)) > 1
+    dropped = [e for e in events if unpredicted(e)]
+    events = [e for e in events if not unpredicted(e)]
+    ctx.count("texts_with_non_ascii_digits", len(odd))
+    ctx.count("comparisons_among_legacy_texts_with_non_ascii_digits_not_predicted", len(dropped))
     for i, e in enumerate(events):
         e["id"] = i + 1
     shared = {"TEXTS_FILE": [dict(t=glue.cp(t)) for t in texts]}
